@@ -124,6 +124,13 @@ def apply_fault(case, world, vi, pos):
         if other in files:
             return None
         files[other] = gen_rust.tiny_unformatted("amb")
+        # a same-named file next to the declaring file: what a wrongly applied fallback would pick up instead of
+        # reporting the ambiguity
+        for df, name, target in t.get("decls", []):
+            if target == pos and sub % 3:
+                sib = os.path.join(os.path.dirname(df), name + ".rs")
+                if sib not in files and os.path.normpath(sib) not in (os.path.normpath(pos), os.path.normpath(other)):
+                    files[sib] = gen_rust.tiny_unformatted("sibling_decoy")
     elif kind == "dirforfile":
         if is_root:
             return None
